@@ -217,14 +217,14 @@ func fatal(f string, a ...interface{}) {
 // ---- registry ----
 
 type Ctx struct {
-	Tier    string
-	Seed    int64
-	Rng     *rand.Rand
-	Drv     *Driver
-	Res     *Result
-	Corpus  string // /verif/corpus/<id>
-	Scratch string // fresh temp dir, removed at exit
-	RepoDir string
+	Tier     string
+	Seed     int64
+	Rng      *rand.Rand
+	Drv      *Driver
+	Res      *Result
+	Corpus   string // /verif/corpus/<id>
+	Scratch  string // fresh temp dir, removed at exit
+	RepoDir  string
 	Thorough bool
 }
 
@@ -243,7 +243,12 @@ func main() {
 		corpus = flag.String("corpus", "", "corpus directory for this property")
 		repo   = flag.String("repo", "/repo", "martian source tree (for data files)")
 	)
+	worker := flag.Bool("worker", false, "internal: Tier-A worker process")
 	flag.Parse()
+	if *worker {
+		workerMain()
+		return
+	}
 	if flag.NArg() != 1 {
 		ids := []string{}
 		for k := range registry {
